@@ -29,6 +29,12 @@ class Layer:
         self.circ = src.shadow_load(CIRC, {"sympy": trig.SYMPY, "np": trig.NUMPY, "_gates": gmod})
         self.Circuit = self.circ.Circuit
 
+    def shadows(self):
+        """real module name -> shadow namespace, for the automatic rebinding of imported repository names (src.shadow_load)"""
+        return {"orquestra.quantum.circuits._gates": self.gates, "orquestra.quantum.circuits._builtin_gates": self.builtin,
+                "orquestra.quantum.circuits._circuit": self.circ, "orquestra.quantum.circuits._unitary_tools": self.ut,
+                "orquestra.quantum.circuits._matrices": self.mat}
+
     def gate(self, name, *params):
         obj, k, pn = self.table[name]
         return obj if k == 0 else obj(*params)
@@ -36,14 +42,14 @@ class Layer:
     def evolution(self):
         b = self.builtin
         return src.shadow_load(EVOL, {"np": trig.NUMPY, "sympy": trig.SYMPY, "CNOT": b.CNOT, "RX": b.RX, "RZ": b.RZ, "H": b.H,
-                                      "Circuit": self.Circuit, "GateOperation": self.gates.GateOperation})
+                                      "Circuit": self.Circuit, "GateOperation": self.gates.GateOperation}, rebind=self.shadows())
 
     def decompositions(self):
         dec = src.shadow_load(DEC, {})
         b = self.builtin
         odec = src.shadow_load(ODEC, {"RY": b.RY, "RZ": b.RZ, "Circuit": self.Circuit, "ControlledGate": self.gates.ControlledGate,
                                       "GateOperation": self.gates.GateOperation, "DecompositionRule": dec.DecompositionRule,
-                                      "decompose_operations": dec.decompose_operations})
+                                      "decompose_operations": dec.decompose_operations}, rebind=dict(self.shadows(), **{DEC: dec}))
         return dec, odec
 
 
